@@ -16,6 +16,7 @@ QNAME = {"Aggregation": "asyncClient_processAggregationResponseQueue", "Extend":
 def run(prog, chk):
     chk.defer(v1_exclusive, prog, chk)
     chk.defer(hmac_construction, prog, chk)
+    chk.defer(header_callback_order, prog, chk)
     chk.defer(_run, prog, chk)
 
 
@@ -544,3 +545,71 @@ def hmac_construction(prog, chk):
         chk.ob("C06.hmac", fn.name, ok,
                "expected hashing sequence %s%s; source: %s, result %s, status %s" % (want, " and the outer hash handed out" if len(fn.params) > 1 else "", norm, out, q.ret),
                loc=fn.loc(), fn=fn)
+
+
+def header_callback_order(prog, chk):
+    """"Every request PDU carries an HMAC computed over the serialized PDU": the application's request-header callback may change the
+    header (instance id, message id - that is what it is for), so it has to run BEFORE the MAC of the PDU is computed.  Call-order rule
+    over every function that invokes the callback (an indirect call through the context's requestHeaderCB): no call that computes a
+    PDU MAC - a function from which X_updateHmac / X_calculateHmac is reachable in the call graph - lies on a path leading to the
+    callback call."""
+    from ksirules.model import walk
+    chk.rule("C06.cborder", "the request-header callback runs before the MAC of the request is computed (no MAC-computing call precedes it on any path)", floor=2)
+    # functions that compute a PDU MAC, by call-graph closure
+    mac = {f.name for f in prog.all_functions() if f.name.endswith("Pdu_updateHmac") or f.name.endswith("Pdu_calculateHmac")}
+    if len(mac) < 2:
+        raise AnalysisBroken("MAC computations of the PDU types not found: %s" % sorted(mac))
+    grew = True
+    while grew:
+        grew = False
+        for f in prog.all_functions():
+            if f.name in mac:
+                continue
+            if any(c.get("fn") in mac for b, i, c in f.calls()):
+                mac.add(f.name)
+                grew = True
+    n = 0
+    for fn in sorted(prog.all_functions(), key=lambda f: (f.unit, f.line)):
+        cbs = []
+        # locals that are given the callback (cb = ctx->requestHeaderCB; ... cb(header))
+        holders = set()
+        for b, i, m in fn.nodes():
+            if m.get("k") == "asg" and strip(m["l"]).get("k") == "var" and strip(m["l"]).get("s") == "local":
+                r = fn.deep(m["r"])
+                if isinstance(r, dict) and any(x.get("k") == "mem" and x.get("f") == "requestHeaderCB" for x in walk(r)):
+                    holders.add(strip(m["l"])["n"])
+        for b, i, c in fn.calls():
+            cal = fn.deep(c.get("f")) if c.get("f") is not None else None
+            if not c.get("fn") and isinstance(cal, dict) and any((m.get("k") == "mem" and m.get("f") == "requestHeaderCB") or
+                                                                 (m.get("k") == "var" and m.get("n") in holders) for m in walk(cal)):
+                cbs.append((b, i))
+        if not cbs:
+            continue
+        macs = [(b, i, c["fn"]) for b, i, c in fn.calls() if c.get("fn") in mac]
+        for (cb, ci) in cbs:
+            n += 1
+            # blocks from which the callback's block is reachable
+            hit = None
+            for (mb, mi, name) in macs:
+                if mb == cb and mi < ci:
+                    hit = (mb, mi, name)
+                    break
+                seen, work = {mb}, [mb]
+                while work and hit is None:
+                    cur = work.pop()
+                    for e in fn.succ[cur]:
+                        if e.dst == cb:
+                            hit = (mb, mi, name)
+                            break
+                        if e.dst not in seen:
+                            seen.add(e.dst)
+                            work.append(e.dst)
+                if hit:
+                    break
+            chk.ob("C06.cborder", "%s:requestHeaderCB" % fn.name, hit is None,
+                   "the callback is invoked before any MAC-computing call" if hit is None else
+                   "%s (line %s) computes the MAC of the PDU and the header callback is invoked afterwards (line %s): whatever the callback changes "
+                   "in the header is sent under a MAC computed without it" % (hit[2], fn.elem_line(hit[0], hit[1]), fn.elem_line(cb, ci)),
+                   loc=fn.loc(fn.elem_line(cb, ci)), fn=fn)
+    if n < 2:
+        raise AnalysisBroken("C06.cborder: only %d invocation(s) of the request-header callback found" % n)
